@@ -20,7 +20,8 @@ import (
 )
 
 var Checks = map[string]vh.CheckFunc{
-	"C12": C12,
+	"C12":  C12,
+	"C18c": C18c,
 }
 
 type M = map[string]interface{}
@@ -78,6 +79,46 @@ func sharedSpec(version int) *rstep.ASpec {
 	}}
 }
 
+// permSpec: actions and guards that delete, overwrite and replace permanent bindings, with yields inside.
+func permSpec(version int) *rstep.ASpec {
+	tick := Op{K: actlang.Tick}
+	v := float64(version)
+	return &rstep.ASpec{ActionErrorNode: "errh", Nodes: map[string]*rstep.ANode{
+		"start": {Type: "message", Branches: []rstep.ABranch{{Pattern: M{"go": "?g"}, Target: "a"}}},
+		"a": {Action: actlang.P(true, tick, Op{K: actlang.Del, A: "home!"}, Op{K: actlang.Set, A: "owner!", V: "mallory"}, tick, Op{K: actlang.Set, A: "a", V: v}),
+			Branches: []rstep.ABranch{{Target: "b"}}},
+		"b": {Action: actlang.P(false, tick, Op{K: actlang.Raw, A: `delete bs["home!"]; bs["owner!"] = "eve"; if (bs["cfg!"]) { bs["cfg!"].k = "changed"; } bs.n = (bs.n || 0) + 1;`}, tick),
+			Branches: []rstep.ABranch{
+				{Guard: actlang.P(false, tick, Op{K: actlang.Del, A: "home!"}, Op{K: actlang.Set, A: "owner!", V: "trudy"}, tick, Op{K: actlang.RetNull}), Target: "nowhere"},
+				{Guard: actlang.P(true, tick, Op{K: actlang.Clear}, Op{K: actlang.Set, A: "guarded", V: true}, tick), Target: "c"}}},
+		"c": {Action: actlang.P(false, tick, Op{K: actlang.RetFresh, V: M{"fresh": v}}),
+			Branches: []rstep.ABranch{{Pattern: M{"fail": true}, Target: "f"}, {Target: "start"}}},
+		"f":    {Action: actlang.P(true, tick, Op{K: actlang.Del, A: "home!"}, Op{K: actlang.Throw}), Branches: []rstep.ABranch{{Target: "start"}}},
+		"errh": {Type: "message", Branches: []rstep.ABranch{{Pattern: M{"go": "?g"}, Target: "a"}}},
+	}}
+}
+
+func c18Scenarios(thorough bool) []c12Scenario {
+	ws := []walker{
+		{Name: "p1", Bs: M{"home!": "alpha", "x": 1.0}, Msgs: []interface{}{M{"go": 1.0}}},
+		{Name: "p2", Bs: M{"home!": "beta", "owner!": "bob"}, Msgs: []interface{}{M{"go": 1.0}, M{"go": 2.0}}},
+		{Name: "p3", Bs: M{"x": 3.0}, Msgs: []interface{}{M{"go": 1.0}}},
+		{Name: "p4", Bs: M{"cfg!": M{"k": []interface{}{1.0}}, "owner!": "dave"}, Msgs: []interface{}{M{"go": 1.0}}},
+		{Name: "p5", Bs: M{"home!": "gamma", "fail": true}, Msgs: []interface{}{M{"go": 1.0}}},
+	}
+	var out []c12Scenario
+	for i := 0; i < len(ws); i++ {
+		for j := i + 1; j < len(ws); j++ {
+			out = append(out, c12Scenario{Kind: "shared", Spec: "permanent", Walkers: []walker{ws[i], ws[j]}})
+		}
+	}
+	out = append(out, c12Scenario{Kind: "shared", Spec: "permanent", Walkers: []walker{ws[0], ws[1], ws[2]}})
+	if thorough {
+		out = append(out, c12Scenario{Kind: "shared", Spec: "permanent", Walkers: []walker{ws[1], ws[3], ws[4]}})
+	}
+	return out
+}
+
 // buildSpecs compiles the three versions of the shared specification in one of its variants:
 // "" (action errors go to the handler node "errh"), "custom-error-node" (ErrorNode names another
 // node and there is no action-error node, so failing walks arrive at a literal "error" node the
@@ -85,7 +126,11 @@ func sharedSpec(version int) *rstep.ASpec {
 func buildSpecs(variant string) ([]*core.Spec, error) {
 	var specs []*core.Spec
 	for v := 1; v <= 3; v++ {
-		raw := sharedSpec(v).Raw()
+		as := sharedSpec(v)
+		if variant == "permanent" {
+			as = permSpec(v)
+		}
+		raw := as.Raw()
 		switch variant {
 		case "custom-error-node":
 			raw.ErrorNode, raw.ActionErrorNode = "oops", ""
@@ -203,8 +248,8 @@ func runC12(sc c12Scenario, specs []*core.Spec, prefix, prefixN []int) (*sched.E
 
 func c12Scenarios(thorough bool) []c12Scenario {
 	ws := []walker{
-		{Name: "w1", Bs: M{"id": 1.0, "tags": []interface{}{"x", "y"}}, Msgs: []interface{}{M{"go": 1.0}}},
-		{Name: "w2", Bs: M{"id": 2.0, "n": 10.0}, Msgs: []interface{}{M{"go": 2.0, "tags": []interface{}{"y", "z", "x"}}, M{"go": 3.0, "opt": M{"p": 1.0}}}},
+		{Name: "w1", Bs: M{"id": 1.0, "tags": []interface{}{"x", "y"}, "home!": "alpha"}, Msgs: []interface{}{M{"go": 1.0}}},
+		{Name: "w2", Bs: M{"id": 2.0, "n": 10.0, "home!": "beta", "owner!": "bob"}, Msgs: []interface{}{M{"go": 2.0, "tags": []interface{}{"y", "z", "x"}}, M{"go": 3.0, "opt": M{"p": 1.0}}}},
 		{Name: "w3", Bs: M{"id": 3.0, "fail": "js"}, Msgs: []interface{}{M{"go": 1.0}}},
 		{Name: "w4", Bs: M{"id": 4.0, "fail": "native"}, Msgs: []interface{}{M{"go": 1.0}}},
 		{Name: "w5", Bs: M{"id": 5.0}, Msgs: []interface{}{M{"go": 1.0}}, CancelAt: 3},
@@ -239,20 +284,30 @@ func c12Scenarios(thorough bool) []c12Scenario {
 	return out
 }
 
+const c12RuleText = "one compiled specification (in three variants: action errors routed to a handler node; a custom ErrorNode name with failing walks arriving at a literal error node the compiled spec lacks; no automatic error node - the latter two and the whole race pass with freshly compiled objects per execution; native and ECMAScript actions and guards, succeeding, failing and rejecting, each with yield points; one walker whose context is cancelled at its 3rd tick) walked by 2-3 threads with distinct states and messages; every interleaving at the yields (and, for the updatable spec, at the atomic load/store) with at most k deviations; oracle: each walk's stride-by-stride result equals its solo result (for swaps: its solo result under exactly one version, never an older version than one whose SetSpec had returned before the walk began); deep snapshot of the spec unchanged; race pass: ThreadSanitizer silent. states = scenarios, transitions = scheduler steps, traces = schedules; non-trivial = schedule with at least one deviation."
+
 // C12: a compiled spec is shared immutable data; spec updates are atomic.
-func C12(c *vh.Ctx) {
+func C12(c *vh.Ctx) { sharedCheck(c, "C12") }
+
+// C18c: permanent bindings under concurrency - machines with different permanent bindings processed against
+// one compiled spec whose actions and guards delete and overwrite them; the engine of C12 with the
+// "permanent" spec variant (each walk must equal its solo walk, in which C18's sequential part has shown the
+// permanent bindings to survive).
+func C18c(c *vh.Ctx) { sharedCheck(c, "C18") }
+
+func sharedCheck(c *vh.Ctx, prop string) {
 	race := os.Getenv("VERIF_RACE") == "1"
 	bound := c.Pick(2, 3)
 	if race {
 		bound = 1
 	}
-	variants := []string{"", "custom-error-node", "no-auto-error-node"}
+	variants := []string{"", "custom-error-node", "no-auto-error-node", "permanent"}
 	specsOf := map[string][]*core.Spec{}
 	beforeOf := map[string][]string{}
 	for _, variant := range variants {
 		ss, err := buildSpecs(variant)
 		if err != nil {
-			c.Violation("C12/compile-failed", err.Error(), nil)
+			c.Violation(prop+"/compile-failed", err.Error(), nil)
 			return
 		}
 		specsOf[variant] = ss
@@ -336,16 +391,23 @@ func C12(c *vh.Ctx) {
 		x, r := runC12(cs.Scenario, specs, cs.Choices, cs.Sizes)
 		c.Eval()
 		for _, v := range check(cs.Scenario, specs, x, r, soloOf(cs.Scenario)) {
-			c.Violation("C12/"+v[0], v[1], cs)
+			c.Violation(prop+"/"+v[0], v[1], cs)
 		}
 		return
 	}
 	scs := c12Scenarios(!c.Quick())
+	if prop == "C18" {
+		scs = c18Scenarios(!c.Quick())
+	}
 	c.Bound("deviations_max", bound)
 	if c.Shard == 0 {
 		c.Count("scenarios", int64(len(scs)))
 	}
-	c.Rule("one compiled specification (in three variants: action errors routed to a handler node; a custom ErrorNode name with failing walks arriving at a literal error node the compiled spec lacks; no automatic error node - the latter two and the whole race pass with freshly compiled objects per execution; native and ECMAScript actions and guards, succeeding, failing and rejecting, each with yield points; one walker whose context is cancelled at its 3rd tick) walked by 2-3 threads with distinct states and messages; every interleaving at the yields (and, for the updatable spec, at the atomic load/store) with at most k deviations; oracle: each walk's stride-by-stride result equals its solo result (for swaps: its solo result under exactly one version, never an older version than one whose SetSpec had returned before the walk began); deep snapshot of the spec unchanged; race pass: ThreadSanitizer silent. states = scenarios, transitions = scheduler steps, traces = schedules; non-trivial = schedule with at least one deviation.")
+	if prop == "C18" {
+		c.Rule("(concurrent part) one compiled specification whose native and ECMAScript actions and guards delete, overwrite and replace permanent bindings (with yield points inside), walked by 2-3 threads for machines with different permanent bindings (none, one, two, a structured value); every interleaving at the yields with at most k deviations; oracle: each walk equals its solo walk stride by stride - so every machine keeps exactly its own permanent bindings; spec snapshot unchanged; race pass: ThreadSanitizer silent.")
+	} else {
+		c.Rule(c12RuleText)
+	}
 	for i, sc := range scs {
 		if c.Expired() {
 			return
@@ -376,7 +438,7 @@ func C12(c *vh.Ctx) {
 				}
 				c.Outcome("results", sb.String())
 				for _, v := range check(sc, r.specs, x, r, solo) {
-					key := "C12/" + v[0]
+					key := prop + "/" + v[0]
 					if seen[key] {
 						c.R.ViolationKeys[key]++
 						continue
